@@ -18,10 +18,11 @@ EXPLANATION = (
     "tests, c_to_cxx order, result handling and the LUA_this_call sibling; (R6) stack layout of a method call: "
     "first argument slot, argument count and type-test slots are shifted by one exactly where the object is "
     "popped from slot 1.")
-NOT_DECIDED = ("Behaviour of the compiled Lua binding on concrete argument stacks.  Type groups for which "
-               "lua_statements has no entries (char: `const char *` arguments and results, class instances as "
-               "arguments, intent(out) pointers, vectors) fall back to the empty default and are outside the subset "
-               "the property names; they are listed as unmodelled, not decided.")
+NOT_DECIDED = ("Behaviour of the compiled Lua binding on concrete argument stacks.  Forms for which "
+               "lua_statements has no entries although the group has some (class instances passed by value, "
+               "intent(out) pointers, vectors) fall back to the empty default and are outside the subset "
+               "the property names; they are listed as unmodelled, not decided.  (A type group with Lua push/pop "
+               "expressions and no entries at all is reported by R8.)")
 
 FAMILY = {
     "integer": ("LUA_TNUMBER", "lua_tointeger", "lua_pushinteger"),
@@ -404,6 +405,78 @@ def rule_r7(repo, run):
     run.floor(R, "per-class Lua name templates", n, 4)
 
 
+def rule_r8(repo, run, types):
+    R = run.rule("C18.R8", "what is decided per overload comes from that overload (the number of results of `int f(double)` is "
+                           "not the one of its sibling `void f(int)`); a type group whose typemap says how to push and pop its "
+                           "values (LUA_push / LUA_pop) has lua statements for arguments and for results - without them the "
+                           "wrapper falls back to the empty default: the function is never called and `return 1` hands Lua "
+                           "whatever is on the stack")
+    wl = repo.module("wrapl")
+    wf = wl.func("Wrapl.wrap_function")
+    loops = [l for l in ast.walk(wf) if isinstance(l, ast.For) and ast.unparse(l.iter) == "overloads" and isinstance(l.target, ast.Name)
+             and any(isinstance(c, ast.Call) and pyflow.is_name(c.func, "LuaFunction") for c in ast.walk(l))]
+    if len(loops) != 1:
+        raise AnalysisError("C18.R8: the loop over overloads of Wrapl.wrap_function was not found")
+    lp = loops[0]
+    var = lp.target.id
+    ctors = [c for c in ast.walk(lp) if isinstance(c, ast.Call) and pyflow.is_name(c.func, "LuaFunction")]
+    if not ctors:
+        raise AnalysisError("C18.R8: LuaFunction(...) is no longer built inside the overload loop")
+    # the class: which parameter decides the number of results
+    lf = wl.func("LuaFunction.__init__")
+    ps = [a.arg for a in lf.args.args][1:]
+    deciding = set()
+    for i in ast.walk(lf):
+        if isinstance(i, ast.If) and any(isinstance(a, ast.AugAssign) and "nresults" in ast.unparse(a.target) for a in ast.walk(i)):
+            deciding |= set(x.id for x in ast.walk(i.test) if isinstance(x, ast.Name) and x.id in ps)
+    if not deciding:
+        raise AnalysisError("C18.R8: LuaFunction.__init__ no longer derives nresults from a parameter")
+    n = 0
+    for ci, c in enumerate(sorted(ctors, key=lambda c: c.lineno)):
+        for k, a in enumerate(c.args):
+            if k >= len(ps) or ps[k] not in deciding:
+                continue
+            n += 1
+            names = set(x.id for x in ast.walk(a) if isinstance(x, ast.Name))
+            per_item = var in names
+            if not per_item:
+                # a local that is assigned inside the loop from the loop variable
+                for nm in names:
+                    asg = [s_ for s_ in ast.walk(lp) if isinstance(s_, ast.Assign) and pyflow.is_name(s_.targets[0], nm)
+                           and s_.lineno < c.lineno]
+                    if asg and all(any(isinstance(x, ast.Name) and x.id == var for x in ast.walk(s_.value)) for s_ in asg):
+                        per_item = True
+            run.check(R, "wrapl.Wrapl.wrap_function:LuaFunction#%d(%s=%s)" % (ci, ps[k], ast.unparse(a)), per_item,
+                      "`%s`, which decides the number of results of the call, is `%s`: computed once before the loop from the "
+                      "first overload, so `int f(double a, int b)` next to `void f(int a)` pushes its result and reports "
+                      "SH_nresult = 0" % (ps[k], ast.unparse(a)), wl.loc(c))
+    run.floor(R, "per-overload records", n, 2)
+    # statements per type group
+    entries = set()
+    for c in ast.walk(wl.tree):
+        if isinstance(c, ast.keyword) and c.arg == "name" and pyflow.const_str(c.value) and pyflow.const_str(c.value).startswith("lua_"):
+            entries.add(pyflow.const_str(c.value))
+    groups = {}
+    for name, t in sorted(types.types.items()):
+        if t.get("LUA_push") in (None, "PUSH") or t.get("LUA_pop") in (None, "POP"):
+            continue
+        sg = t.get("sgroup")
+        if sg:
+            groups.setdefault(str(sg), []).append(name)
+    k = 0
+    for sg, names in sorted(groups.items()):
+        for role in ("in", "result"):
+            k += 1
+            have = [e for e in entries if e.startswith("lua_%s_" % sg) and e.endswith("_" + role)]
+            run.check(R, "lua_statements[%s]:%s" % (sg, role), bool(have),
+                      "typemap %s says how Lua values of group `%s` are %s (LUA_%s) but lua_statements has no `lua_%s_*_%s` "
+                      "entry: the lookup ends at the empty default, %s" %
+                      (names[0], sg, "read" if role == "in" else "pushed", "pop" if role == "in" else "push", sg, role,
+                       "the argument is never read from the stack" if role == "in" else
+                       "the function is never called and `return 1` hands Lua whatever is on the stack"), wl.loc(wf))
+    run.floor(R, "type groups with Lua push/pop", k, 6)
+
+
 def run(repo, run, tier):
     tables.check_model_assumptions(repo)
     types = tables.TypeTable(repo)
@@ -414,3 +487,4 @@ def run(repo, run, tier):
     rule_r5(repo, run)
     rule_r6(repo, run)
     rule_r7(repo, run)
+    rule_r8(repo, run, types)
